@@ -614,7 +614,7 @@ func (x *runner) runC04() {
 	if x.cfg.Tier == "thorough" {
 		nAny = 400
 	}
-	x.runAnyK(types, nAny)
+	x.runAnyK(append([]Ty{P("i64"), P("f32"), P("bool"), P("bytes")}, types...), nAny)
 	// query strings, well-formed and damaged, through the query-parameters reader against the model
 	x.runQueryDecK(nAny / 4)
 	// untyped Go values of arbitrary shape
